@@ -134,6 +134,8 @@ def observe_ops(rng, cfg, nv, nodes):
     ops = []
     n = rng.choice(nodes)
     ops.append({"op": "balance", "n": n, "wl": rng.choice(cfg["wallets"] + ["nobody"])})
+    if rng.random() < 0.3:
+        ops.append({"op": "history", "n": n, "wl": rng.choice(cfg["wallets"] + ["nobody"])})
     if nv and rng.random() < 0.5:
         ops.append({"op": "readvtx", "n": n, "v": rng.randint(1, nv)})
     if rng.random() < 0.5:
@@ -146,6 +148,7 @@ def final_ops(cfg, nv, nodes, heavy=True):
     for n in nodes:
         for w in cfg["wallets"] + ["nobody"]:
             ops.append({"op": "balance", "n": n, "wl": w, "times": 2})
+            ops.append({"op": "history", "n": n, "wl": w})
         for t in cfg["trx"]:
             ops.append({"op": "readtrx", "n": n, "t": t["id"]})
         for v in range(1, nv + 1):
@@ -432,7 +435,7 @@ def fam_canon(rng):
 # ------------------------------------------------------------------------------------------
 # property table
 
-ALL_EVENTS = ["BalanceRaced", "Reset", "Genesis", "ProposePre", "ProposeCommit", "Craft", "DeliverPre", "DeliverCommit",
+ALL_EVENTS = ["History", "BalanceRaced", "Reset", "Genesis", "ProposePre", "ProposeCommit", "Craft", "DeliverPre", "DeliverCommit",
               "TickPop", "Truncate", "Trust", "Untrust", "Balance", "ReadTrx", "ReadVertex", "Load", "Compare",
               "Wedged"]
 
